@@ -22,11 +22,20 @@ Class(t) == IF t.req.level = "h2" THEN H2Expect(t.req.hdrs[1]) ELSE Expect(t.req
 
 Why(t) == ReasonTag(IF t.req.level = "h2" THEN H2RefuseReasons(t.req.hdrs[1]) ELSE RefuseReasons(t.req.level, t.req))
 
+\* a two-call trace carries, besides call 1 (req, raised, wire): second = the request of call 2, raised2, wire2 = the bytes
+\* written during call 2.  Verdict of call 2 = the per-call clause (Wire!Judge); Which2 = the model whose bytes these are
+IsPairTrace(t) == "second" \in DOMAIN t
+Hard2(t) == IF IsPairTrace(t) THEN Judge(t.second.level, t.second, t.raised2, t.wire2).hard ELSE "n/a"
+Which2(t) == IF ~IsPairTrace(t) THEN "n/a"
+             ELSE IF ~t.raised2 /\ t.wire2 = SecondCallWire({}, t.second.level, t.req, t.second) THEN "design"
+             ELSE IF ~t.raised2 /\ t.wire2 = SecondCallWire({RRCP, CKRH}, t.second.level, t.req, t.second) THEN "kept-head"
+             ELSE "other"
+
 TNext == /\ tid <= Len(Traces)
          /\ LET v == Verdict(Traces[tid]) IN
             \* one plain string per trace (TLC never wraps a string; tuples longer than 80 columns are wrapped)
             PrintT("VERDICT|" \o ToString(tid) \o "|" \o v.hard \o "|" \o (IF v.exact THEN "exact" ELSE "inexact")
-                   \o "|" \o Class(Traces[tid]) \o "|" \o Why(Traces[tid]))
+                   \o "|" \o Class(Traces[tid]) \o "|" \o Why(Traces[tid]) \o "|" \o Hard2(Traces[tid]) \o "|" \o Which2(Traces[tid]))
          /\ tid' = tid + 1
 TSpec == TInit /\ [][TNext]_tid
 =============================================================================
